@@ -76,12 +76,33 @@ func newSimDisk() *simDisk {
 
 // gate runs one mutating call: it is numbered, the disk is cloned before it
 // (in cloning mode) and op is applied, all under the disk mutex.
-func (d *simDisk) gate(kind string, op func()) {
+func (d *simDisk) gate(kind string, op func()) { d.gateFile(kind, "", op) }
+
+// fileCategory names the kind of Pebble file a path belongs to.
+func fileCategory(name string) string {
+	switch {
+	case name == "":
+		return "dir"
+	case strings.HasSuffix(name, ".log"):
+		return "wal"
+	case strings.HasSuffix(name, ".sst"):
+		return "sst"
+	case strings.Contains(name, "marker."):
+		return "marker"
+	case strings.Contains(name, "MANIFEST"):
+		return "manifest"
+	case strings.Contains(name, "OPTIONS"):
+		return "options"
+	}
+	return "other"
+}
+
+func (d *simDisk) gateFile(kind, name string, op func()) {
 	d.mu.Lock()
 	defer d.mu.Unlock()
 	d.kinds[kind]++
 	if d.cloning {
-		d.takeLocked(kind)
+		d.takeLocked(kind + ":" + fileCategory(name))
 	}
 	d.ops++
 	op()
@@ -160,7 +181,7 @@ func (g *gateFS) wrap(name string, f vfs.File, err error, dir bool) (vfs.File, e
 }
 
 func (g *gateFS) Create(name string, c vfs.DiskWriteCategory) (f vfs.File, err error) {
-	g.d.gate("create", func() {
+	g.d.gateFile("create", name, func() {
 		f, err = g.FS.Create(name, c)
 		if err == nil {
 			g.d.synced[name] = nil
@@ -180,7 +201,7 @@ func (g *gateFS) Link(oldname, newname string) (err error) {
 }
 
 func (g *gateFS) OpenReadWrite(name string, c vfs.DiskWriteCategory, opts ...vfs.OpenOption) (f vfs.File, err error) {
-	g.d.gate("openrw", func() {
+	g.d.gateFile("openrw", name, func() {
 		f, err = g.FS.OpenReadWrite(name, c, opts...)
 		f, err = g.wrap(name, f, err, false)
 	})
@@ -196,7 +217,7 @@ func (g *gateFS) OpenDir(name string) (vfs.File, error) {
 }
 
 func (g *gateFS) Remove(name string) (err error) {
-	g.d.gate("remove", func() {
+	g.d.gateFile("remove", name, func() {
 		if err = g.FS.Remove(name); err == nil {
 			delete(g.d.synced, name)
 		}
@@ -218,7 +239,7 @@ func (g *gateFS) RemoveAll(name string) (err error) {
 }
 
 func (g *gateFS) Rename(oldname, newname string) (err error) {
-	g.d.gate("rename", func() {
+	g.d.gateFile("rename", newname, func() {
 		if err = g.FS.Rename(oldname, newname); err == nil {
 			g.d.renamed(oldname, newname)
 		}
@@ -227,7 +248,7 @@ func (g *gateFS) Rename(oldname, newname string) (err error) {
 }
 
 func (g *gateFS) ReuseForWrite(oldname, newname string, c vfs.DiskWriteCategory) (f vfs.File, err error) {
-	g.d.gate("reuse", func() {
+	g.d.gateFile("reuse", newname, func() {
 		f, err = g.FS.ReuseForWrite(oldname, newname, c)
 		if err == nil {
 			g.d.renamed(oldname, newname)
@@ -252,12 +273,12 @@ type gateFile struct {
 }
 
 func (f *gateFile) Write(p []byte) (n int, err error) {
-	f.d.gate("write", func() { n, err = f.File.Write(p) })
+	f.d.gateFile("write", f.name, func() { n, err = f.File.Write(p) })
 	return n, err
 }
 
 func (f *gateFile) WriteAt(p []byte, off int64) (n int, err error) {
-	f.d.gate("writeat", func() { n, err = f.File.WriteAt(p, off) })
+	f.d.gateFile("writeat", f.name, func() { n, err = f.File.WriteAt(p, off) })
 	return n, err
 }
 
@@ -276,12 +297,16 @@ func (f *gateFile) Sync() (err error) {
 	if f.dir {
 		kind = "syncdir"
 	}
-	f.d.gate(kind, func() { err = f.syncLocked() })
+	name := f.name
+	if f.dir {
+		name = ""
+	}
+	f.d.gateFile(kind, name, func() { err = f.syncLocked() })
 	return err
 }
 
 func (f *gateFile) SyncData() (err error) {
-	f.d.gate("syncdata", func() { err = f.syncLocked() })
+	f.d.gateFile("syncdata", f.name, func() { err = f.syncLocked() })
 	return err
 }
 
